@@ -210,7 +210,7 @@ class Harness:
 
 
 SOURCES_FILES = ["src/main.lua", "src/init.lua", "src/sub/init.luau", "main.lua", "init.lua", "src/sub/index.lua"]
-REL_REQS = ["./m", "../m", "./sub/m", "./m.lua", "./m.luau", "./m.d", "././m", "./sub/../m", "../x/m", "../../x/m", "./sub/init.spec", "./init.d"]
+REL_REQS = ["..", ".", "./sub/..", "./m", "../m", "./sub/m", "./m.lua", "./m.luau", "./m.d", "././m", "./sub/../m", "../x/m", "../../x/m", "./sub/init.spec", "./init.d"]
 NAMED = {"path": ["pkg/m", "pkg", "lib/m.lua", "nope/m", "@rc/m"], "luau": ["@pkg/m", "@pkg", "@lib/m.lua", "@self/m", "@self", "@nope/m", "@rc/m"]}
 MODES = [("path", "init"), ("path", "index"), ("path", "index.lua"), ("luau", "init")]
 CONVERT_PAIRS = [(("path", "init"), ("path", "init")), (("path", "init"), ("luau", "init")), (("luau", "init"), ("path", "init")), (("luau", "init"), ("luau", "init")),
